@@ -257,14 +257,15 @@ pub fn one_case(rep: &Report, idx: usize, case: &CCase, inj: &Injection, keep: b
         }
         // Reader accessors (library).
         let rt = crate::exec::rt_current();
-        let acc = rt.block_on(async {
+        let acc = crate::util::catch(|| rt.block_on(async {
             let reader = bitar::archive_reader::IoReader::new(FragSource::new(
                 Arc::new(archive.clone()),
                 FragPlan::Random { seed: idx as u64 + 1, max: 97 },
                 PendPlan::Every(3),
             ));
             bitar::Archive::try_init(reader).await.map(|a| crate::lib_drv::accessors(&a)).map_err(|e| format!("{:?}", e))
-        });
+        }))
+        .and_then(|x| x);
         let acc = acc.map_err(|e| format!("library reader rejects a conforming archive: {}", e))?;
         let want_cfg = case.spec.cfg.describe();
         if acc.chunker != want_cfg {
